@@ -31,6 +31,9 @@ ASSUMPTIONS = [
     "the bond graph used to audit torsion calls is the union of the residue "
     "template and all its patches, parsed independently from AA.xml / "
     "PATCHES.xml",
+    "an exact exchange of the names of the two carboxyl oxygens of a "
+    "protonated ASP/GLU (done by the optimiser so that the proton is on "
+    "OD2/OE2) moves no atom and is not counted as a displacement",
 ]
 BOUND = {
     "quick": "0 deviations: all 33 input names x 3 positions x 7 option sets "
@@ -93,6 +96,30 @@ def far_side(graph, present, axis_a, axis_b):
         return None  # ring: the bond is not rotatable
     seen.discard(axis_b)
     return seen
+
+
+def _geometry_diff(old, cur, graph, base, position):
+    """Bond lengths / angles among input heavy atoms that changed."""
+    out = []
+    for n in old:
+        nbs = [m for m in graph.get(n, ()) if m in old]
+        for m in nbs:
+            if n < m:
+                d0 = np.linalg.norm(old[n] - old[m])
+                d1 = np.linalg.norm(cur[n] - cur[m])
+                if abs(d0 - d1) > 1e-6:
+                    out.append((f"C04/final/{base}/{position}/"
+                                f"bond-length-changed:{n}-{m}",
+                                {"before": d0, "after": d1}))
+        for i in range(len(nbs)):
+            for j in range(i + 1, len(nbs)):
+                a0 = build.angle(old[nbs[i]], old[n], old[nbs[j]])
+                a1 = build.angle(cur[nbs[i]], cur[n], cur[nbs[j]])
+                if abs(a0 - a1) > 1e-4:
+                    out.append((f"C04/final/{base}/{position}/"
+                                f"bond-angle-changed:{nbs[i]}-{n}-{nbs[j]}",
+                                {"before": a0, "after": a1}))
+    return out
 
 
 def run_case(case):
@@ -177,6 +204,24 @@ def run_case(case):
         final[(a.res_seq, a.name)] = a
     strict = case["opt"] in ("clean", "assign_only", "nodebump_noopt")
     moved_heavy = []
+    # The optimiser may exchange the *names* of the two chemically equivalent
+    # carboxyl oxygens of a protonated ASP/GLU so that the proton sits on
+    # OD2/OE2; no atom moves.  Such an exact exchange is undone here before
+    # coordinates are compared (and counted as an observed outcome).
+    swapped = 0
+    for pair in (("OD1", "OD2"), ("OE1", "OE2")):
+        for seq in {a["res_seq"] for a in in_atoms}:
+            ia = [next((a for a in in_atoms if a["res_seq"] == seq
+                        and a["name"] == n), None) for n in pair]
+            fa = [final.get((seq, n)) for n in pair]
+            if None in ia or None in fa:
+                continue
+            x0, x1 = np.round(ia[0]["xyz"], 3), np.round(ia[1]["xyz"], 3)
+            if (max(abs(np.array([fa[0].x, fa[0].y, fa[0].z]) - x1)) < 1e-9
+                    and max(abs(np.array([fa[1].x, fa[1].y, fa[1].z]) - x0))
+                    < 1e-9 and max(abs(x0 - x1)) > 1e-6):
+                final[(seq, pair[0])], final[(seq, pair[1])] = fa[1], fa[0]
+                swapped += 1
     for a in in_atoms:
         if a["name"].startswith("H"):
             continue
@@ -219,26 +264,18 @@ def run_case(case):
                     cur[n] = np.array([fa.x, fa.y, fa.z])
             old = {n: np.round(a["xyz"], 3) for n, a in atoms.items()
                    if n in cur}
-            for n in old:
-                nbs = [m for m in graph.get(n, ()) if m in old]
-                for m in nbs:
-                    if n < m:
-                        d0 = np.linalg.norm(old[n] - old[m])
-                        d1 = np.linalg.norm(cur[n] - cur[m])
-                        if abs(d0 - d1) > 1e-6:
-                            viol.append((
-                                f"C04/final/{base}/{inf['position']}/"
-                                f"bond-length-changed:{n}-{m}",
-                                {"before": d0, "after": d1}))
-                for i in range(len(nbs)):
-                    for j in range(i + 1, len(nbs)):
-                        a0 = build.angle(old[nbs[i]], old[n], old[nbs[j]])
-                        a1 = build.angle(cur[nbs[i]], cur[n], cur[nbs[j]])
-                        if abs(a0 - a1) > 1e-4:
-                            viol.append((
-                                f"C04/final/{base}/{inf['position']}/"
-                                f"bond-angle-changed:{nbs[i]}-{n}-{nbs[j]}",
-                                {"before": a0, "after": a1}))
+            local = _geometry_diff(old, cur, graph, base, inf["position"])
+            if local and base in ("ASP", "GLU"):
+                # same comparison with the two carboxyl oxygen names exchanged
+                p, q = ("OD1", "OD2") if base == "ASP" else ("OE1", "OE2")
+                if p in cur and q in cur:
+                    cur2 = dict(cur)
+                    cur2[p], cur2[q] = cur[q], cur[p]
+                    if not _geometry_diff(old, cur2, graph, base,
+                                          inf["position"]):
+                        local = []
+                        swapped += 1
+            viol += local
     ev = res["events"]
     ev["runs-ok"] = 1
     if calls:
@@ -251,6 +288,8 @@ def run_case(case):
         ev["runs-with-moved-input-heavy-atoms"] = 1
         if not calls:
             ev["moved-without-torsion-call(flip)"] = 1
+    if swapped:
+        ev["carboxyl-oxygen-names-exchanged"] = swapped
     if calls or moved_heavy:
         res["nontrivial"] = engine._h(case)
     seen = set()
